@@ -509,6 +509,7 @@ impl<B: Backend> World<B> {
                     let exp = if self.m.closed { Poll::Ready(None) } else { Poll::Ready(Some(self.m.value)) };
                     if got != exp {
                         let prop = if got == Poll::Ready(None) || exp == Poll::Ready(None) { "C03" } else { "C01" };
+                        let prop = if self.cfg.prop == "C02" && got.is_pending() { "C02" } else { prop };
                         return Err(viol(
                             self.p(prop),
                             step,
@@ -603,6 +604,9 @@ impl<B: Backend> World<B> {
                 st.transitions += 1;
                 if got != exp {
                     let prop = if got == Poll::Ready(None) || exp == Poll::Ready(None) { "C03" } else { "C01" };
+                    // suspended although an update or the end of the stream is
+                    // available: that is C02's statement as well
+                    let prop = if self.cfg.prop == "C02" && got.is_pending() { "C02" } else { prop };
                     return Err(viol(
                         self.p(prop),
                         step,
